@@ -273,7 +273,7 @@ CHECKS["C08"] = dict(
               "on the real code; recorded deviations validated by TLC as integer inequalities")
 
 # additions to the level texts made while the generators were widened (DESIGN.md 9.6)
-ADDED = {'C01': " Operands are also spelled as one Polygon holding two disjoint shells and with the hole listed before its shell. A *Bounds dispatch family (for every pattern of the rectangle's corners with respect to a holed or two-member partner, the smallest and largest rectangle, both argument positions) and magnitude-shifted copies (coordinates x 2^sh, exact) are part of the universe; the same two values are passed to all four operations and to the requested one again, and the last result must equal the first. In every other case the ring lists of all polygons of both operands share one array (interleaved, with spare capacity), and the operands must be unchanged after the calls. Every third case spells the operand rings closed. The vertices of all rings of both operands also share one array in those cases. Unclosed rings start at their largest vertex in part of the cases.", 'C02': ' Aggregate receivers include lists with exactly one vertex outside (or on the edge) at every position. Receivers whose bounding-box corners are inside while a vertex lies in a hole or notch are included. Part of the polygons is also asked at 2^-560 and 2^520. Multi-line receivers are split into two members in every order-preserving way. Rectangles are also asked as *Bounds arguments.', 'C03': " Two-member shapes are also spelled with whole members reversed. Distance is also checked close to long oblique segments (exact squared distance from TLC, error of the real answer relative to the coordinate size <= 1e-10); paths include long and closed ones and multi-line strings of unequal members. Every shape, spelling and long path is also presented translated by about 1e8 / 3e8 / 7e7 (area, length and distance unchanged, centroid reported relative to the translation). The same shapes and paths are also presented at 2^-20 and 2^24 (exact scaling). Lengths are also taken at 2^-600 / 2^600. Boxes (*Bounds): centre and area, the centre also at 2^1021. The catalogue includes a hole whose bounding box contains another hole's. Every other shape has its rings in one shared array of points and must be unchanged after measuring.", 'C04': ' Box pairs include boxes with infinite coordinates, the empty box against the whole plane, and Extend by boxes that Empty() calls empty without being the canonical empty box. The box a Bounds call returned is grown afterwards; later answers must not depend on it.', 'C05': " Wide elements (15-33 members, point arrays of 255-2055 points with an aperiodic pattern) and the stability of an encoding still held when the next geometry is encoded are part of the check. Chains of one-member collections 40 / 1025 deep (up to 2049 in the thorough tier) are encoded by the real encoder and decoded from TLC's mixed-byte-order bytes and from hex text. Every decode input is also read through wkb.Read from readers that return less than requested. Consecutive equal vertices (also +0 followed by -0) are part of the universe.", 'C06': ' The universe includes empty members after a non-empty first member, consecutive duplicate vertices, and the stability of a text still held when the next geometry is encoded. Geometries holding +/- the largest finite float64 together (Extremes) are included.', 'C17': ' The universe includes consecutive duplicate vertices and the stability of a text still held when the next geometry is encoded. Geometries holding +/- the largest finite float64 together (Extremes) are included. Every number of the text must be the shortest decimal that reads back as the same float64. The pool includes values a 32-bit float holds exactly. Closing vertices equal to the first as numbers but not as bit patterns are included.', 'C07': ' Complete members of a foreign type inside multi-geometries, unknown type codes (0, 8, 255) alone and as members, and a 1100-point array followed by foreign bytes are generated directly (a bounded read sequence does not reach them). GeoJSON bases include rings with a doubled closing position and a ring of one position three times. Every decode input is also read through wkb.Read from readers that return less than requested (no panic). Successful decodes are re-encoded in both byte orders.', 'C08': ' Conics also come with a single standard parallel and (LCC) a scale factor, Mercator with a latitude of true scale; the transverse series is sampled densely between 0.5 and 1.7 degrees of latitude. Three of five definitions leave the false origin, the latitude of origin or the central meridian to its default. The latitude of origin of conics varies (mean of the parallels, equator, south of the first parallel). One ellipsoid in five is replaced by its authalic sphere (+R_A). Every other UTM definition lies next to the antimeridian (zones 1 and 60), every third tmerc has its central meridian there. Every other conic without a datum home has its central meridian next to the antimeridian.', 'C10': ' One of the sample positions is written in the 0..360 longitude convention; an eighth definition whose projection set-up fails checks that the error is reported on every call. Every other history parses the merc / lcc definitions without the parameters that equal their defaults. The lcc definition carries +R_A (its derived constants change if derived twice). Every third history makes failing probe calls before each recorded call. Every other history spells the axis-reversed definition with a height letter in the middle (+axis=wdn). Definition 5 is a Krovak reference on a non-Bessel ellipsoid with a seven-parameter shift. Probe histories also call an unrelated transformer with the same coordinates.', 'C11': ' Random histories include degenerate pools (collinear points, symmetric unit squares, three boxes repeated); reachability of three levels, root collapse and refill is asserted by TLC witnesses.', 'C12': ' In trees of three or more levels additional queries are placed just outside the faces of upper-level boxes and, after a delete, on a grid over the whole extent. Fixed query points are asked in alternating order across operations.', 'C13': ' A shallow-crossing family (crossing angles below 2 degrees) is included. Multi-polygons of two one-ring members on the same small lattice: each member must equal its solo result. Ring-less polygons are included. Polygons of unclosed rings sharing one array of points are included.', 'C14': ' Part of the cases is presented at magnitudes 2^-20 / 2^20 (exact scaling); each line is clipped twice by the same polygon value and both answers must agree. The same single line cut into 257 pieces per segment must be clipped to the same total length. After the recorded call the polygon is moved in place and the moved line clipped again.', 'C15': ' Mutations include insertion of empty members on either side and rotation of closed line strings / multi-points (which must not be similar). Bases include closed rings that enclose nothing (bow-tie, folded sliver). Comparisons are repeated with operands that share their storage. Part of the pairs is also compared at magnitudes 2^-600 and 2^600 (coordinates and tolerance). In every other case the vertex lists of each operand share one array of points; operands must be unchanged.', 'C16': " Three column layouts are used (short names; a 10-byte and an 11-byte name with the string column last; a field whose Go name equals the tag of another field), and strings that begin or end with white space other than blanks. Rows are also read for their geometry alone (DecodeRowFields without names): the model's DecodeGeom action moves the same cursor. The polygon pool includes a two-vertex unclosed ring. Files written through EncodeFields are also read with DecodeRow into a struct matched by field name only. The pool includes a geometry without points.", 'C19': " A near-tie cycle geometry (alternatives differing by 2 in 12000) and a chord family (an expensive direct link to the goal next to the optimal chain) exercise the admissibility of the heuristic. Twin queries (two points a hair's breadth on either side of the midpoint of two nodes) are included. Slow networks (all speeds below one) are included. Every third case asks the finished network other questions first.", 'C20': ' The linear UNIT clause is placed before or after the PARAMETER clauses, every third value draw uses a seven-parameter shift consisting of rotations and scale only, and a reference differing only in its datum shift must be a different reference in both directions. Mercator_1SP is also written with PARAMETER["latitude_of_origin",0] (ogc style). The spheroid is also written under the recognised names GRS_1980 / WGS_1984 with the case\'s own figures. A registered name and its definition must be Equal both ways with a nil transformer between them. Nil-iff-Equal is also examined against the previous case\'s geographic reference (same datum name, other figures). One parameter order in three names the datum D_WGS_1972. Nil-iff-Equal and \'Equal references project alike\' are examined against the previous case\'s WKT reference.', 'C18': ' An extraction that stops making progress is reported as a hang; after eight confirmed hangs or crashes the remaining cases of the run are not executed (counted in the evidence; the run fails). Deep reference chains (40 / 70 relations selected from the far end) are replayed gated and free-running. The tag filter has two keys; selected and unselected objects spell their tags in several orders. Curated documents include ways without node references; in-bounds nodes also lie on the boundary of the box. Free-running extractions also get readers that were already read.'}
+ADDED = {'C01': " Operands are also spelled as one Polygon holding two disjoint shells and with the hole listed before its shell. A *Bounds dispatch family (for every pattern of the rectangle's corners with respect to a holed or two-member partner, the smallest and largest rectangle, both argument positions) and magnitude-shifted copies (coordinates x 2^sh, exact) are part of the universe; the same two values are passed to all four operations and to the requested one again, and the last result must equal the first. In every other case the ring lists of all polygons of both operands share one array (interleaved, with spare capacity), and the operands must be unchanged after the calls. Every third case spells the operand rings closed. The vertices of all rings of both operands also share one array in those cases. Unclosed rings start at their largest vertex in part of the cases. All disjoint pairs of two *Bounds operands are included.", 'C02': ' Aggregate receivers include lists with exactly one vertex outside (or on the edge) at every position. Receivers whose bounding-box corners are inside while a vertex lies in a hole or notch are included. Part of the polygons is also asked at 2^-560 and 2^520. Multi-line receivers are split into two members in every order-preserving way. Rectangles are also asked as *Bounds arguments.', 'C03': " Two-member shapes are also spelled with whole members reversed. Distance is also checked close to long oblique segments (exact squared distance from TLC, error of the real answer relative to the coordinate size <= 1e-10); paths include long and closed ones and multi-line strings of unequal members. Every shape, spelling and long path is also presented translated by about 1e8 / 3e8 / 7e7 (area, length and distance unchanged, centroid reported relative to the translation). The same shapes and paths are also presented at 2^-20 and 2^24 (exact scaling). Lengths are also taken at 2^-600 / 2^600. Boxes (*Bounds): centre and area, the centre also at 2^1021. The catalogue includes a hole whose bounding box contains another hole's. Every other shape has its rings in one shared array of points and must be unchanged after measuring.", 'C04': ' Box pairs include boxes with infinite coordinates, the empty box against the whole plane, and Extend by boxes that Empty() calls empty without being the canonical empty box. The box a Bounds call returned is grown afterwards; later answers must not depend on it.', 'C05': " Wide elements (15-33 members, point arrays of 255-2055 points with an aperiodic pattern) and the stability of an encoding still held when the next geometry is encoded are part of the check. Chains of one-member collections 40 / 1025 deep (up to 2049 in the thorough tier) are encoded by the real encoder and decoded from TLC's mixed-byte-order bytes and from hex text. Every decode input is also read through wkb.Read from readers that return less than requested. Consecutive equal vertices (also +0 followed by -0) are part of the universe. Encodings written back to back are read one by one from a reader without ReadByte.", 'C06': ' The universe includes empty members after a non-empty first member, consecutive duplicate vertices, and the stability of a text still held when the next geometry is encoded. Geometries holding +/- the largest finite float64 together (Extremes) are included. Closed line strings of up to six vertices are included.', 'C17': ' The universe includes consecutive duplicate vertices and the stability of a text still held when the next geometry is encoded. Geometries holding +/- the largest finite float64 together (Extremes) are included. Every number of the text must be the shortest decimal that reads back as the same float64. The pool includes values a 32-bit float holds exactly. Closing vertices equal to the first as numbers but not as bit patterns are included. Closed line strings of up to six vertices are included.', 'C07': ' Complete members of a foreign type inside multi-geometries, unknown type codes (0, 8, 255) alone and as members, and a 1100-point array followed by foreign bytes are generated directly (a bounded read sequence does not reach them). GeoJSON bases include rings with a doubled closing position and a ring of one position three times. Every decode input is also read through wkb.Read from readers that return less than requested (no panic). Successful decodes are re-encoded in both byte orders.', 'C08': ' Conics also come with a single standard parallel and (LCC) a scale factor, Mercator with a latitude of true scale; the transverse series is sampled densely between 0.5 and 1.7 degrees of latitude. Three of five definitions leave the false origin, the latitude of origin or the central meridian to its default. The latitude of origin of conics varies (mean of the parallels, equator, south of the first parallel). One ellipsoid in five is replaced by its authalic sphere (+R_A). Every other UTM definition lies next to the antimeridian (zones 1 and 60), every third tmerc has its central meridian there. Every other conic without a datum home has its central meridian next to the antimeridian.', 'C10': ' One of the sample positions is written in the 0..360 longitude convention; an eighth definition whose projection set-up fails checks that the error is reported on every call. Every other history parses the merc / lcc definitions without the parameters that equal their defaults. The lcc definition carries +R_A (its derived constants change if derived twice). Every third history makes failing probe calls before each recorded call. Every other history spells the axis-reversed definition with a height letter in the middle (+axis=wdn). Definition 5 is a Krovak reference on a non-Bessel ellipsoid with a seven-parameter shift. Probe histories also call an unrelated transformer with the same coordinates.', 'C11': ' Random histories include degenerate pools (collinear points, symmetric unit squares, three boxes repeated); reachability of three levels, root collapse and refill is asserted by TLC witnesses.', 'C12': ' In trees of three or more levels additional queries are placed just outside the faces of upper-level boxes and, after a delete, on a grid over the whole extent. Fixed query points are asked in alternating order across operations.', 'C13': ' A shallow-crossing family (crossing angles below 2 degrees) is included. Multi-polygons of two one-ring members on the same small lattice: each member must equal its solo result. Ring-less polygons are included. Polygons of unclosed rings sharing one array of points are included.', 'C14': ' Part of the cases is presented at magnitudes 2^-20 / 2^20 (exact scaling); each line is clipped twice by the same polygon value and both answers must agree. The same single line cut into 257 pieces per segment must be clipped to the same total length. After the recorded call the polygon is moved in place and the moved line clipped again. The catalogue includes a thin oblique hole.', 'C15': ' Mutations include insertion of empty members on either side and rotation of closed line strings / multi-points (which must not be similar). Bases include closed rings that enclose nothing (bow-tie, folded sliver). Comparisons are repeated with operands that share their storage. Part of the pairs is also compared at magnitudes 2^-600 and 2^600 (coordinates and tolerance). In every other case the vertex lists of each operand share one array of points; operands must be unchanged. Bases include rings that pass through their start vertex twice.', 'C16': " Three column layouts are used (short names; a 10-byte and an 11-byte name with the string column last; a field whose Go name equals the tag of another field), and strings that begin or end with white space other than blanks. Rows are also read for their geometry alone (DecodeRowFields without names): the model's DecodeGeom action moves the same cursor. The polygon pool includes a two-vertex unclosed ring. Files written through EncodeFields are also read with DecodeRow into a struct matched by field name only. The pool includes a geometry without points and parts without points between other parts.", 'C19': " A near-tie cycle geometry (alternatives differing by 2 in 12000) and a chord family (an expensive direct link to the goal next to the optimal chain) exercise the admissibility of the heuristic. Twin queries (two points a hair's breadth on either side of the midpoint of two nodes) are included. Slow networks (all speeds below one) are included. Every third case asks the finished network other questions first.", 'C20': ' The linear UNIT clause is placed before or after the PARAMETER clauses, every third value draw uses a seven-parameter shift consisting of rotations and scale only, and a reference differing only in its datum shift must be a different reference in both directions. Mercator_1SP is also written with PARAMETER["latitude_of_origin",0] (ogc style). The spheroid is also written under the recognised names GRS_1980 / WGS_1984 with the case\'s own figures. A registered name and its definition must be Equal both ways with a nil transformer between them. Nil-iff-Equal is also examined against the previous case\'s geographic reference (same datum name, other figures). One parameter order in three names the datum D_WGS_1972. Nil-iff-Equal and \'Equal references project alike\' are examined against the previous case\'s WKT reference.', 'C18': ' An extraction that stops making progress is reported as a hang; after eight confirmed hangs or crashes the remaining cases of the run are not executed (counted in the evidence; the run fails). Deep reference chains (40 / 70 relations selected from the far end) are replayed gated and free-running. The tag filter has two keys; selected and unselected objects spell their tags in several orders. Curated documents include ways without node references; in-bounds nodes also lie on the boundary of the box. Free-running extractions also get readers that were already read.'}
 for _k, _a in ADDED.items():
     CHECKS[_k]["text"] += _a
 
